@@ -17,6 +17,9 @@ class BuiltinMixin:
             c = self.contracts.get(name)
             if c is not None:
                 return self.apply_contract(st, c, args, kwargs, name)
+            if name in getattr(self, "opaque_ok", ()):
+                # pure observers of the interpreter state (inspect.stack, Path(...)): result is an unknown value
+                return Opaque(name[4:] + "()")
             raise OutsideSubset(f"external function {name[4:]} has no assumed contract")
         if "." in name and b.self_val is not None:
             return self.call_method_builtin(st, name, b.self_val, args, kwargs)
@@ -31,11 +34,7 @@ class BuiltinMixin:
     def bi_len(self, st, a, k):
         v = a[0] if st.spec else self.force(st, a[0])
         if isinstance(v, Union):
-            out = None
-            for c, x in reversed(v.alts):
-                e = self.bi_len(st, [x], {}).e
-                out = e if out is None else z3.If(c, e, out)
-            return zint(out)
+            return self.spec_map_union(st, v, lambda x: self.bi_len(st, [x], {}))
         if isinstance(v, Z):
             if v.t.kind in ("seq", "str"):
                 return zint(z3.Length(v.e))
@@ -430,6 +429,16 @@ class BuiltinMixin:
             if meth in ("isupper", "isdigit", "isalpha"):
                 fn = smt.ufunc("str." + meth, Str, Bool)
                 return zbool(fn(s))
+        if kind == "refdict":
+            # a dict with a fixed set of modelled keys (class model "dictlike"): d.get("k") reads the optional field k
+            key = const_str(args[0]) if args else None
+            ft = self.field_T(recv.t.cls, key) if key is not None else None
+            if ft is None:
+                raise OutsideSubset(f"dict key {key!r} of {recv.t.cls} is not modelled")
+            val = self.read_field(st, recv.e, key, ft)
+            if len(args) > 1 and isinstance(val, Union):
+                return Union([(c, (args[1] if x is NONE else x)) for c, x in val.alts])
+            return val
         if kind == "int":
             if meth == "bit_length":
                 m = recv.e
